@@ -67,7 +67,8 @@ def main():
     dst = os.path.join(VERIF, "seeded", name)
     os.makedirs(dst, exist_ok=True)
     for f in ("patch.diff", "demo.py"):
-        shutil.copy(os.path.join(src, f), os.path.join(dst, f))
+        if os.path.abspath(os.path.join(src, f)) != os.path.abspath(os.path.join(dst, f)):
+            shutil.copy(os.path.join(src, f), os.path.join(dst, f))
     meta = {}
     try:
         meta = json.load(open(os.path.join(src, "meta.json")))
@@ -75,7 +76,7 @@ def main():
         pass
     hist = []
     old = os.path.join(dst, "meta.json")
-    if os.path.exists(old) and os.path.abspath(old) != os.path.abspath(os.path.join(src, "meta.json")):
+    if os.path.exists(old):
         try:
             hist = json.load(open(old)).get("verification_history", [])
         except Exception:
